@@ -3,8 +3,11 @@ package p_net
 import (
 	"fmt"
 	"net"
+	"runtime"
 	"sort"
 	"strings"
+	"sync"
+	"sync/atomic"
 	"testing"
 	"time"
 
@@ -23,11 +26,13 @@ const (
 )
 
 // c37AddrPool: pairwise different UDP addresses (different port, different IPv4 host, IPv6). Index = model key.
-var c37AddrPool = [c37Addrs]struct {
+type c37AddrSpec struct {
 	ip   [4]byte
 	ip6  bool
 	port int
-}{
+}
+
+var c37AddrPool = [c37Addrs]c37AddrSpec{
 	{ip: [4]byte{127, 0, 0, 1}, port: 4001},
 	{ip: [4]byte{127, 0, 0, 1}, port: 4002},
 	{ip: [4]byte{127, 0, 0, 2}, port: 4001},
@@ -38,9 +43,9 @@ var c37AddrPool = [c37Addrs]struct {
 
 // c37UDPAddr builds a fresh *net.UDPAddr for pool entry i. form16 selects the 16-byte representation of an IPv4
 // address (what net.ParseIP / net.ResolveUDPAddr produce) instead of the 4-byte one: the same address either way.
-func c37UDPAddr(i int, form16 bool) *net.UDPAddr {
-	a := c37AddrPool[i]
+func c37UDPAddr(i int, form16 bool) *net.UDPAddr { return c37UDPAddrOf(c37AddrPool[i], form16) }
 
+func c37UDPAddrOf(a c37AddrSpec, form16 bool) *net.UDPAddr {
 	if a.ip6 {
 		return &net.UDPAddr{IP: net.ParseIP("::1"), Port: a.port}
 	}
@@ -93,6 +98,14 @@ type c37Entry struct {
 
 func c37Name(serial int) string { return fmt.Sprintf("m%d", serial) }
 
+func c37MemberName(m quicmemberlist.Member) string {
+	if m == nil {
+		return "<nil>"
+	}
+
+	return fmt.Sprintf("%s/%s", m.Name(), m.Address())
+}
+
 func genC37Op(joinPct int) *rapid.Generator[c37Op] {
 	return rapid.Custom(func(t *rapid.T) c37Op {
 		o := c37Op{
@@ -123,42 +136,54 @@ func genC37Ops(maxSteps int) *rapid.Generator[[]c37Op] {
 	})
 }
 
-// c37Observe compares every read method of the table with the model. hist is only used for messages.
-func c37Observe(t ev.TB, r *ev.Rec, pool *quicmemberlist.VerifMembersPool, present map[int]c37Entry, hist func() string) {
+// c37Report receives a disagreement between the table and the model: clause names the oracle clause.
+type c37Report func(clause, format string, a ...any)
+
+// c37SeqReport: the single-goroutine part reports every clause under its own signature, at once.
+func c37SeqReport(t ev.TB, r *ev.Rec) c37Report {
+	return func(clause, format string, a ...any) {
+		t.Helper()
+		r.Violation(t, clause, format, a...)
+	}
+}
+
+// c37Observe compares every read method of the table with the model: addrs is the address universe of the history
+// (index = model key), present the model. hist is only used for messages.
+func c37Observe(pool *quicmemberlist.VerifMembersPool, addrs []c37AddrSpec, present map[int]c37Entry, hist func() string, rep c37Report) {
 	count := [c37Nodes]int{}
 	for _, e := range present {
 		count[e.node]++
 	}
 
 	// presence and lookup by address
-	for a := 0; a < c37Addrs; a++ {
+	for a := range addrs {
 		e, isPresent := present[a]
 
 		for _, form16 := range []bool{false, true} {
-			addr := c37UDPAddr(a, form16)
+			addr := c37UDPAddrOf(addrs[a], form16)
 
 			if got := pool.Exists(addr); got != isPresent {
-				r.Violation(t, "exists-mismatch", "Exists(%v)=%v but the member is present=%v after %s", addr, got, isPresent, hist())
+				rep("exists-mismatch", "Exists(%v)=%v but the member is present=%v after %s", addr, got, isPresent, hist())
 			}
 
 			m, found := pool.Get(addr)
 
 			switch {
 			case isPresent && !found:
-				r.Violation(t, "get-notfound-present", "Get(%v) reports found=false (member=%v) for a present member (joined as %s, not left) after %s",
+				rep("get-notfound-present", "Get(%v) reports found=false (member=%v) for a present member (joined as %s, not left) after %s",
 					addr, m != nil, c37Name(e.serial), hist())
 			case !isPresent && found:
-				r.Violation(t, "get-found-absent", "Get(%v) reports found=true for an address that is not present after %s", addr, hist())
+				rep("get-found-absent", "Get(%v) reports found=true for an address that is not present after %s", addr, hist())
 			case isPresent:
 				if m == nil || m.Name() != c37Name(e.serial) || !m.Address().Equal(c37NodeIDs[e.node].addr) {
-					r.Violation(t, "get-wrong-member", "Get(%v) returned member %v, want %s of node%d after %s", addr, m, c37Name(e.serial), e.node, hist())
+					rep("get-wrong-member", "Get(%v) returned member %s, want %s of node%d after %s", addr, c37MemberName(m), c37Name(e.serial), e.node, hist())
 				}
 			}
 		}
 	}
 
 	if got := pool.Len(); got != len(present) {
-		r.Violation(t, "len-mismatch", "Len()=%d, present members=%d after %s", got, len(present), hist())
+		rep("len-mismatch", "Len()=%d, present members=%d after %s", got, len(present), hist())
 	}
 
 	// per-node member lists
@@ -169,7 +194,7 @@ func c37Observe(t ev.TB, r *ev.Rec, pool *quicmemberlist.VerifMembersPool, prese
 		var stale, dup []string
 
 		for _, m := range list {
-			a := c37AddrIndex(m.Addr())
+			a := c37AddrIndexIn(addrs, m.Addr())
 			key := fmt.Sprintf("a%d", a)
 
 			seen[key]++
@@ -197,13 +222,13 @@ func c37Observe(t ev.TB, r *ev.Rec, pool *quicmemberlist.VerifMembersPool, prese
 
 		switch {
 		case len(missing) > 0:
-			r.Violation(t, "node-list-missing", "member list of node%d lacks present member(s) %v (list has %d, want %d) after %s",
+			rep("node-list-missing", "member list of node%d lacks present member(s) %v (list has %d, want %d) after %s",
 				n, missing, len(list), count[n], hist())
 		case len(dup) > 0:
-			r.Violation(t, "node-list-duplicate", "member list of node%d holds address(es) %v more than once (list has %d, want %d) after %s",
+			rep("node-list-duplicate", "member list of node%d holds address(es) %v more than once (list has %d, want %d) after %s",
 				n, dup, len(list), count[n], hist())
 		case len(stale) > 0:
-			r.Violation(t, "node-list-stale", "member list of node%d holds %v which is not a present member of that node (list has %d, want %d) after %s",
+			rep("node-list-stale", "member list of node%d holds %v which is not a present member of that node (list has %d, want %d) after %s",
 				n, stale, len(list), count[n], hist())
 		default:
 			listBad = false
@@ -215,10 +240,10 @@ func c37Observe(t ev.TB, r *ev.Rec, pool *quicmemberlist.VerifMembersPool, prese
 		}
 
 		if got := pool.MembersLen(c37NodeIDs[n].addr); got != count[n] {
-			r.Violation(t, "memberslen-mismatch", "MembersLen(node%d)=%d, present members of that node=%d after %s", n, got, count[n], hist())
+			rep("memberslen-mismatch", "MembersLen(node%d)=%d, present members of that node=%d after %s", n, got, count[n], hist())
 		}
 
-		for a := 0; a < c37Addrs; a++ {
+		for a := range addrs {
 			e, ok := present[a]
 			wantFound := ok && e.node == n
 			wantOthers := count[n]
@@ -227,9 +252,9 @@ func c37Observe(t ev.TB, r *ev.Rec, pool *quicmemberlist.VerifMembersPool, prese
 				wantOthers--
 			}
 
-			l, others, found := pool.MembersLenOthers(c37NodeIDs[n].addr, c37UDPAddr(a, false))
+			l, others, found := pool.MembersLenOthers(c37NodeIDs[n].addr, c37UDPAddrOf(addrs[a], false))
 			if l != count[n] || others != wantOthers || found != wantFound {
-				r.Violation(t, "memberslenothers-mismatch", "MembersLenOthers(node%d,a%d)=(%d,%d,%v), want (%d,%d,%v) after %s",
+				rep("memberslenothers-mismatch", "MembersLenOthers(node%d,a%d)=(%d,%d,%v), want (%d,%d,%v) after %s",
 					n, a, l, others, found, count[n], wantOthers, wantFound, hist())
 			}
 		}
@@ -240,7 +265,7 @@ func c37Observe(t ev.TB, r *ev.Rec, pool *quicmemberlist.VerifMembersPool, prese
 	var wrong []string
 
 	pool.Traverse(func(m quicmemberlist.Member) bool {
-		a := c37AddrIndex(m.Addr())
+		a := c37AddrIndexIn(addrs, m.Addr())
 		visited[a]++
 
 		if e, ok := present[a]; !ok || m.Name() != c37Name(e.serial) {
@@ -258,18 +283,18 @@ func c37Observe(t ev.TB, r *ev.Rec, pool *quicmemberlist.VerifMembersPool, prese
 
 	if len(wrong) > 0 || len(visited) != len(present) {
 		sort.Strings(wrong)
-		r.Violation(t, "traverse-mismatch", "Traverse visited %v; present=%d visited=%d after %s", wrong, len(present), len(visited), hist())
+		rep("traverse-mismatch", "Traverse visited %v; present=%d visited=%d after %s", wrong, len(present), len(visited), hist())
 	}
 }
 
-// c37AddrIndex maps an address handed back by the table to its pool index, independent of its IP representation.
-func c37AddrIndex(addr *net.UDPAddr) int {
+// c37AddrIndexIn maps an address handed back by the table to its pool index, independent of its IP representation.
+func c37AddrIndexIn(addrs []c37AddrSpec, addr *net.UDPAddr) int {
 	if addr == nil {
 		return -1
 	}
 
-	for i := 0; i < c37Addrs; i++ {
-		w := c37UDPAddr(i, false)
+	for i := range addrs {
+		w := c37UDPAddrOf(addrs[i], false)
 		if w.Port == addr.Port && w.IP.Equal(addr.IP) {
 			return i
 		}
@@ -354,7 +379,7 @@ func c37Run(t ev.TB, r *ev.Rec, ops []c37Op) (nontrivial bool, classes []string)
 			}
 		}
 
-		c37Observe(t, r, pool, present, hist)
+		c37Observe(pool, c37AddrPool[:], present, hist, c37SeqReport(t, r))
 	}
 
 	for k := range cls {
@@ -366,18 +391,678 @@ func c37Run(t ev.TB, r *ev.Rec, ops []c37Op) (nontrivial bool, classes []string)
 	return nontrivial, classes
 }
 
+// ---- concurrent part -------------------------------------------------------------------------------------------
+//
+// Several goroutines apply join / re-join / leave / take-over operations to ONE table at the same time, most of them
+// to different addresses of the same node. Operations on different addresses commute, so after all goroutines have
+// finished the table must equal the sequential model "address -> last operation on that address": for an address
+// used by one goroutine that is the goroutine's own last operation (and every Set/Remove flag follows from the
+// goroutine's own order), for an address used by several goroutines it is the last operation of one of them.
+
+// c37CAddrPool: the address universe of the concurrent part. The table is built on util.ShardedMap, whose string hash
+// ignores the last character of the key: ports differ in other digits so that the addresses are spread over shards
+// (a3 deliberately shares its shard with a0).
+var c37CAddrPool = []c37AddrSpec{
+	{ip: [4]byte{127, 0, 0, 1}, port: 4000},
+	{ip: [4]byte{127, 0, 0, 1}, port: 4010},
+	{ip: [4]byte{127, 0, 0, 1}, port: 4100},
+	{ip: [4]byte{127, 0, 0, 1}, port: 4001},
+	{ip: [4]byte{127, 0, 0, 1}, port: 5000},
+	{ip: [4]byte{127, 0, 0, 1}, port: 14000},
+	{ip: [4]byte{127, 0, 0, 2}, port: 4000},
+	{ip: [4]byte{10, 0, 0, 1}, port: 4020},
+	{ip6: true, port: 4030},
+	{ip: [4]byte{127, 0, 0, 1}, port: 4110},
+	{ip: [4]byte{127, 0, 0, 1}, port: 6000},
+	{ip: [4]byte{127, 0, 0, 3}, port: 7010},
+}
+
+// c37Sched is the harness-owned scheduler of the concurrent phase.
+//
+// Scheduling point: a goroutine that reaches one lets the other goroutines run until `want` of their operations have
+// completed, or nobody else is left, or `bound` yields have passed (the others may all be blocked on a lock this
+// goroutine holds: the bound is a number of yields, never a duration).
+//
+// Entry order (when the case has one): the operations enter the table in a drawn order; operation k+1 may enter as
+// soon as operation k has completed or any running operation has reached a scheduling point, so an operation that
+// sits in a scheduling point overlaps with its successors whatever the Go scheduler does. Every wait is for an
+// operation earlier in the order, every operation completes after a bounded number of yields: no deadlock.
+type c37Sched struct {
+	active   atomic.Bool
+	progress atomic.Int64
+	running  atomic.Int64
+	want     int64
+	bound    int
+	points   atomic.Int64
+
+	mu      sync.Mutex
+	gates   []chan struct{} // gates[k] is closed when the k-th operation of the entry order may enter
+	allowed int
+	entered atomic.Int64
+}
+
+// allow lets the first n operations of the entry order enter.
+func (s *c37Sched) allow(n int) {
+	if len(s.gates) == 0 {
+		return
+	}
+
+	s.mu.Lock()
+
+	for s.allowed < n && s.allowed < len(s.gates) {
+		close(s.gates[s.allowed])
+		s.allowed++
+	}
+
+	s.mu.Unlock()
+}
+
+func (s *c37Sched) enter(k int) {
+	if k >= 0 && k < len(s.gates) {
+		<-s.gates[k]
+		s.entered.Add(1)
+	}
+}
+
+func (s *c37Sched) completed(k int) {
+	s.progress.Add(1)
+
+	if k >= 0 {
+		s.allow(k + 2)
+	}
+}
+
+func (s *c37Sched) yield() {
+	s.points.Add(1)
+	s.allow(int(s.entered.Load()) + 1)
+
+	c0 := s.progress.Load()
+
+	for i := 0; i < s.bound; i++ {
+		if s.progress.Load()-c0 >= s.want || s.running.Load() <= 1 {
+			return
+		}
+
+		runtime.Gosched()
+	}
+}
+
+// c37YieldMember is a Member whose Addr() is a scheduling point: while the concurrent phase is active, the n-th call
+// (n < 8) yields when bit n of mask is set. Everything else is the wrapped real member.
+type c37YieldMember struct {
+	quicmemberlist.Member
+	sched *c37Sched
+	calls *atomic.Uint32
+	mask  uint8
+}
+
+func (m c37YieldMember) Addr() *net.UDPAddr {
+	if m.mask != 0 && m.sched.active.Load() {
+		if n := m.calls.Add(1) - 1; n < 8 && m.mask&(1<<n) != 0 {
+			m.sched.yield()
+		}
+	}
+
+	return m.Member.Addr()
+}
+
+type c37COp struct {
+	c37Op
+	Mask uint8 // join: scheduling points of the joining member (see c37YieldMember)
+	Pre  int   // yields before the operation starts
+}
+
+type c37CCase struct {
+	Prefix []c37COp   // single-goroutine joins of distinct addresses before the goroutines start
+	Gs     [][]c37COp // one operation list per goroutine
+	Order  []int      // entry order of the operations as a sequence of goroutine numbers; empty: free running
+	Want   int
+}
+
+func (c c37CCase) String() string {
+	var b strings.Builder
+
+	one := func(o c37COp) {
+		b.WriteString(o.c37Op.String())
+
+		if o.Form16 {
+			b.WriteString("'")
+		}
+
+		if o.Mask != 0 || o.Pre != 0 {
+			fmt.Fprintf(&b, "/y%d.%d", o.Mask, o.Pre)
+		}
+	}
+
+	b.WriteString("prefix[")
+
+	for i := range c.Prefix {
+		if i > 0 {
+			b.WriteString(" ")
+		}
+
+		one(c.Prefix[i])
+	}
+
+	b.WriteString("]")
+
+	for g := range c.Gs {
+		fmt.Fprintf(&b, " g%d[", g)
+
+		for i := range c.Gs[g] {
+			if i > 0 {
+				b.WriteString(" ")
+			}
+
+			one(c.Gs[g][i])
+		}
+
+		b.WriteString("]")
+	}
+
+	if len(c.Order) > 0 {
+		fmt.Fprintf(&b, " order=%v", c.Order)
+	}
+
+	fmt.Fprintf(&b, " want=%d", c.Want)
+
+	return b.String()
+}
+
+func genC37CCase(maxOps int) *rapid.Generator[c37CCase] {
+	return rapid.Custom(func(t *rapid.T) c37CCase {
+		nA := len(c37CAddrPool)
+
+		g := rapid.IntRange(2, 8).Draw(t, "goroutines")
+		hot := rapid.IntRange(0, c37Nodes-1).Draw(t, "hotNode")
+		hotPct := rapid.SampledFrom([]int{100, 85, 67, 34}).Draw(t, "hotPct") // how much of the traffic is about one node
+		sharePct := rapid.SampledFrom([]int{0, 0, 25}).Draw(t, "sharePct")    // operations on another goroutine's address
+		joinPct := rapid.SampledFrom([]int{25, 50, 75}).Draw(t, "joinPct")
+		prefixPct := rapid.SampledFrom([]int{50, 75, 100}).Draw(t, "prefixPct") // addresses present before the goroutines start
+
+		node := func() int {
+			if rapid.IntRange(0, 99).Draw(t, "hot") < hotPct {
+				return hot
+			}
+
+			return rapid.IntRange(0, c37Nodes-1).Draw(t, "node")
+		}
+
+		mask := func() uint8 { return rapid.SampledFrom([]uint8{0, 1, 1, 1, 2, 3, 5}).Draw(t, "mask") }
+
+		c := c37CCase{Want: rapid.IntRange(1, 2).Draw(t, "want")}
+
+		for a := 0; a < nA; a++ {
+			if rapid.IntRange(0, 99).Draw(t, "inPrefix") >= 100-prefixPct { // minimises towards "not in the prefix"
+				c.Prefix = append(c.Prefix, c37COp{
+					c37Op: c37Op{Kind: "join", Node: node(), Addr: a, Form16: rapid.Bool().Draw(t, "form16")},
+					Mask:  mask(),
+				})
+			}
+		}
+
+		c.Gs = make([][]c37COp, g)
+
+		for i := range c.Gs {
+			// address a belongs to goroutine a % g
+			var own []int
+
+			for a := i; a < nA; a += g {
+				own = append(own, a)
+			}
+
+			n := rapid.IntRange(1, maxOps).Draw(t, "nops")
+
+			for j := 0; j < n; j++ {
+				o := c37COp{Pre: rapid.SampledFrom([]int{0, 0, 1, 2}).Draw(t, "pre")}
+				o.Form16 = rapid.Bool().Draw(t, "form16")
+
+				if rapid.IntRange(0, 99).Draw(t, "share") < sharePct {
+					o.Addr = rapid.IntRange(0, nA-1).Draw(t, "addr")
+				} else {
+					o.Addr = rapid.SampledFrom(own).Draw(t, "ownAddr")
+				}
+
+				if rapid.IntRange(0, 99).Draw(t, "k") < joinPct {
+					o.Kind = "join"
+					o.Node = node()
+					o.Mask = mask()
+				} else {
+					o.Kind = "leave"
+				}
+
+				c.Gs[i] = append(c.Gs[i], o)
+			}
+		}
+
+		if rapid.IntRange(0, 3).Draw(t, "freeRunning") != 3 {
+			// a drawn interleaving of the per-goroutine orders
+			left := make([]int, g)
+			for i := range c.Gs {
+				left[i] = len(c.Gs[i])
+			}
+
+			for {
+				var cand []int
+
+				for i := range left {
+					if left[i] > 0 {
+						cand = append(cand, i)
+					}
+				}
+
+				if len(cand) == 0 {
+					break
+				}
+
+				next := cand[0]
+				if len(cand) > 1 {
+					next = cand[rapid.IntRange(0, len(cand)-1).Draw(t, "next")]
+				}
+
+				left[next]--
+				c.Order = append(c.Order, next)
+			}
+		}
+
+		return c
+	})
+}
+
+type c37CResult struct {
+	flag  bool
+	err   error
+	panic string
+}
+
+// c37RunConcurrent runs one concurrent case. bound = number of yields a scheduling point waits at most.
+func c37RunConcurrent(t ev.TB, r *ev.Rec, c c37CCase, bound int) (nontrivial bool, classes []string) {
+	addrs := c37CAddrPool
+	sched := &c37Sched{want: int64(c.Want), bound: bound}
+	pool := quicmemberlist.NewVerifMembersPool()
+	present := map[int]c37Entry{}
+	cls := map[string]bool{}
+
+	serial := 0
+
+	newMember := func(o c37COp) quicmemberlist.Member {
+		serial++
+
+		id := c37NodeIDs[o.Node]
+
+		m, err := quicmemberlist.NewMember(c37Name(serial), c37UDPAddrOf(addrs[o.Addr], o.Form16), id.addr, id.pub, "", true)
+		if err != nil {
+			t.Fatalf("harness: NewMember: %v", err)
+		}
+
+		return c37YieldMember{Member: m, sched: sched, calls: &atomic.Uint32{}, mask: o.Mask}
+	}
+
+	hist := func() string { return c.String() }
+
+	// single-goroutine prefix
+	for _, o := range c.Prefix {
+		m := newMember(o)
+
+		_, wasPresent := present[o.Addr]
+		if added := pool.Set(m); added == wasPresent {
+			r.Violation(t, "set-return", "Set returned added=%v for an address that was present=%v in the prefix of %s", added, wasPresent, hist())
+		}
+
+		present[o.Addr] = c37Entry{node: o.Node, serial: serial}
+	}
+
+	c37Observe(pool, addrs, present, func() string { return "the prefix of " + hist() }, c37SeqReport(t, r))
+
+	// the goroutines
+	members := make([][]quicmemberlist.Member, len(c.Gs))
+	serials := make([][]int, len(c.Gs))
+	results := make([][]c37CResult, len(c.Gs))
+
+	for g := range c.Gs {
+		members[g] = make([]quicmemberlist.Member, len(c.Gs[g]))
+		serials[g] = make([]int, len(c.Gs[g]))
+		results[g] = make([]c37CResult, len(c.Gs[g]))
+
+		for i, o := range c.Gs[g] {
+			if o.Kind == "join" {
+				members[g][i] = newMember(o)
+				serials[g][i] = serial
+			}
+		}
+	}
+
+	// entry[g][i]: position of operation i of goroutine g in the entry order (-1: free running)
+	entry := make([][]int, len(c.Gs))
+	for g := range c.Gs {
+		entry[g] = make([]int, len(c.Gs[g]))
+		for i := range entry[g] {
+			entry[g][i] = -1
+		}
+	}
+
+	if len(c.Order) > 0 {
+		next := make([]int, len(c.Gs))
+
+		for k, g := range c.Order {
+			entry[g][next[g]] = k
+			next[g]++
+		}
+
+		sched.gates = make([]chan struct{}, len(c.Order))
+		for k := range sched.gates {
+			sched.gates[k] = make(chan struct{})
+		}
+	}
+
+	start := make(chan struct{})
+
+	var wg sync.WaitGroup
+
+	sched.running.Store(int64(len(c.Gs)))
+	sched.active.Store(true)
+
+	for g := range c.Gs {
+		wg.Add(1)
+
+		go func(g int) {
+			defer wg.Done()
+			defer sched.running.Add(-1)
+
+			i := 0
+
+			defer func() {
+				if x := recover(); x != nil {
+					results[g][i].panic = fmt.Sprint(x)
+
+					sched.allow(len(sched.gates)) // nobody waits for this goroutine's remaining operations
+				}
+			}()
+
+			<-start
+
+			for ; i < len(c.Gs[g]); i++ {
+				o := c.Gs[g][i]
+
+				sched.enter(entry[g][i])
+
+				for k := 0; k < o.Pre; k++ {
+					runtime.Gosched()
+				}
+
+				switch o.Kind {
+				case "join":
+					results[g][i].flag = pool.Set(members[g][i])
+				default:
+					results[g][i].flag, results[g][i].err = pool.Remove(c37UDPAddrOf(addrs[o.Addr], o.Form16))
+				}
+
+				sched.completed(entry[g][i])
+			}
+		}(g)
+	}
+
+	sched.allow(1)
+	close(start)
+	wg.Wait()
+	sched.active.Store(false) // observation below must not yield
+
+	r.Class("scheduling-points", sched.points.Load())
+
+	for g := range results {
+		for i := range results[g] {
+			if p := results[g][i].panic; p != "" {
+				r.Violation(t, "panic-in-concurrent-update", "goroutine g%d panicked in %s: %s; case %s", g, c.Gs[g][i].c37Op, p, hist())
+			}
+		}
+	}
+
+	// which goroutines use which address
+	users := make([][]int, len(addrs))
+
+	for g := range c.Gs {
+		for _, o := range c.Gs[g] {
+			if l := users[o.Addr]; len(l) == 0 || l[len(l)-1] != g {
+				users[o.Addr] = append(users[o.Addr], g)
+			}
+		}
+	}
+
+	type nodeUse struct{ updates, leaves map[int]bool } // node -> goroutines
+
+	uses := [c37Nodes]nodeUse{}
+	for n := range uses {
+		uses[n] = nodeUse{updates: map[int]bool{}, leaves: map[int]bool{}}
+	}
+
+	final := map[int]c37Entry{}
+	for a, e := range present {
+		final[a] = e
+	}
+
+	for a := range addrs {
+		type outcome struct {
+			e       c37Entry
+			present bool
+		}
+
+		var candidates []outcome
+
+		for _, g := range users[a] {
+			cur, isPresent := present[a] // the goroutine's own view: exact when it is the only user of the address
+
+			for i, o := range c.Gs[g] {
+				if o.Addr != a {
+					continue
+				}
+
+				res := results[g][i]
+
+				if isPresent {
+					uses[cur.node].updates[g] = true
+				}
+
+				switch o.Kind {
+				case "join":
+					uses[o.Node].updates[g] = true
+
+					if isPresent && cur.node != o.Node {
+						cls["conc:take-over"] = true
+					}
+
+					if len(users[a]) == 1 && res.flag == isPresent {
+						r.Violation(t, "set-return-after-concurrent-update",
+							"g%d: Set of %s returned added=%v for an address only g%d uses and that was present=%v; case %s",
+							g, o.c37Op, res.flag, g, isPresent, hist())
+					}
+
+					cur, isPresent = c37Entry{node: o.Node, serial: serials[g][i]}, true
+				default:
+					if isPresent {
+						uses[cur.node].leaves[g] = true
+					}
+
+					if res.err != nil {
+						r.Violation(t, "remove-error-after-concurrent-update", "g%d: Remove of %s returned error %v; case %s", g, o.c37Op, res.err, hist())
+					}
+
+					if len(users[a]) == 1 && res.flag != isPresent {
+						r.Violation(t, "remove-return-after-concurrent-update",
+							"g%d: Remove of %s returned removed=%v for an address only g%d uses and that was present=%v; case %s",
+							g, o.c37Op, res.flag, g, isPresent, hist())
+					}
+
+					isPresent = false
+				}
+			}
+
+			candidates = append(candidates, outcome{e: cur, present: isPresent})
+		}
+
+		switch len(candidates) {
+		case 0:
+		case 1:
+			if candidates[0].present {
+				final[a] = candidates[0].e
+			} else {
+				delete(final, a)
+			}
+		default:
+			// several goroutines used the address: the last operation on it is the last operation of one of them
+			cls["conc:shared-address"] = true
+
+			m, found := pool.Get(c37UDPAddrOf(addrs[a], false))
+			explained := false
+
+			var ss []string
+
+			for _, o := range candidates {
+				switch {
+				case !o.present:
+					ss = append(ss, "absent")
+
+					if !found {
+						explained = true
+
+						delete(final, a)
+					}
+				default:
+					ss = append(ss, c37Name(o.e.serial))
+
+					if found && m != nil && m.Name() == c37Name(o.e.serial) {
+						explained = true
+						final[a] = o.e
+					}
+				}
+			}
+
+			if !explained {
+				r.Violation(t, "address-state-unexplained-after-concurrent-update",
+					"Get(a%d) found=%v member=%s, but the last operations of the goroutines on a%d leave one of %v; case %s",
+					a, found, c37MemberName(m), a, ss, hist())
+			}
+		}
+	}
+
+	for n := range uses {
+		if len(uses[n].updates) >= 2 {
+			nontrivial = true
+			cls["nontrivial:conc-node-list-updated-by-several-goroutines"] = true
+		}
+
+		if len(uses[n].leaves) >= 2 {
+			cls["conc:leaves-of-one-node-by-several-goroutines"] = true
+		}
+	}
+
+	cls[fmt.Sprintf("conc:goroutines=%d", len(c.Gs))] = true
+
+	// What is observed after a concurrent phase differs from run to run; the reported message is a function of the case
+	// only (so that the case can be reproduced and minimised), the observations go to the log.
+	var exp []string
+
+	for a := range addrs {
+		if e, ok := final[a]; ok {
+			exp = append(exp, fmt.Sprintf("a%d=%s/node%d", a, c37Name(e.serial), e.node))
+		}
+	}
+
+	var clauses, observed []string
+
+	c37Observe(pool, addrs, final, func() string { return "all goroutines finished" }, func(clause, format string, a ...any) {
+		clauses = append(clauses, clause)
+		observed = append(observed, clause+": "+fmt.Sprintf(format, a...))
+	})
+
+	if len(clauses) > 0 {
+		sigs := map[string]bool{}
+		for _, cl := range clauses {
+			sigs[c37ConcSig(cl)] = true
+		}
+
+		// the per-node list signature first: the other views are compared with the same final set
+		sig := c37ConcSig(clauses[0])
+		if sigs["node-list-stale-after-concurrent-update"] {
+			sig = "node-list-stale-after-concurrent-update"
+		}
+
+		for _, o := range observed {
+			t.Logf("observed (this run): %s", o)
+		}
+
+		r.Violation(t, sig, "after all goroutines had finished the table disagrees with the final present set %v "+
+			"(per address the last operation on it; the observed views are in the log, they differ between interleavings); case %s",
+			exp, hist())
+	}
+
+	for k := range cls {
+		classes = append(classes, k)
+	}
+
+	sort.Strings(classes)
+
+	return nontrivial, classes
+}
+
+// c37ConcSig: after a concurrent phase every disagreement of a per-node list view with the final present set has one
+// root cause (an update of the list did not take a concurrent update into account).
+func c37ConcSig(s string) string {
+	switch s {
+	case "node-list-missing", "node-list-duplicate", "node-list-stale", "memberslen-mismatch", "memberslenothers-mismatch":
+		return "node-list-stale-after-concurrent-update"
+	default:
+		return s + "-after-concurrent-update"
+	}
+}
+
+func c37ConcurrentProperty(r *ev.Rec, maxOps, bound int, mode string) func(rt *rapid.T) {
+	return func(rt *rapid.T) {
+		c := genC37CCase(maxOps).Draw(rt, "case")
+
+		// every table draws its own shard seed (two addresses or nodes may share a shard lock in one table and not in the
+		// next, which changes what can overlap): the case runs on two fresh tables
+		var (
+			nontrivial bool
+			classes    []string
+		)
+
+		for k := 0; k < 2; k++ {
+			nontrivial, classes = c37RunConcurrent(rt, r, c, bound)
+		}
+
+		r.Case(mode+" "+c.String(), nontrivial, append(classes, "conc:"+mode)...)
+
+		if nontrivial && r.WantSample() {
+			r.Sample(map[string]any{"mode": mode, "case": c.String()})
+		}
+	}
+}
+
 func TestC37(t *testing.T) {
 	r := ev.Start(t, "C37")
 	defer r.Finish()
-	r.Rule("histories of 1..30 (thorough 1..60) operations join(node,addr)/leave(addr) over 3 nodes x 6 distinct UDP addresses " +
+	r.Rule("(1) single goroutine: histories of 1..30 (thorough 1..60) operations join(node,addr)/leave(addr) over 3 nodes x 6 distinct UDP addresses " +
 		"(drawn join ratio 50-80%, IPv4 addresses in 4- or 16-byte form), including re-join of a present address by the same or another node " +
 		"and leave of an unknown address; after every operation Exists/Get/Len/MembersLen/MembersLenOthers/Traverse and the stored per-node lists " +
 		"are compared with a map model address->last joined member. non-trivial: a node with >=2 present addresses experienced a leave or a " +
-		"re-join of one of them; distinct by operation sequence")
+		"re-join of one of them; distinct by operation sequence. " +
+		"(2) concurrent: after a single-goroutine prefix of joins, 2..8 goroutines apply 1..4 (thorough 1..6) join/re-join/leave/take-over " +
+		"operations each to one table at the same time, over 3 nodes x 12 addresses spread over the table's shards; 34-100% of the traffic is about " +
+		"one node, every address belongs to one goroutine except for a drawn 0/25% of operations; members are wrappers whose Addr() is a " +
+		"harness scheduling point (yield until other goroutines completed 1-2 operations, bounded by a yield count); in 3 of 4 cases the " +
+		"operations enter the table in a drawn interleaving of the per-goroutine orders (the next one enters when its predecessor has completed " +
+		"or reached a scheduling point), otherwise the goroutines run freely; once with GOMAXPROCS=1 " +
+		"(the scheduling points decide the interleaving) and once with the default parallelism. After all goroutines have finished the same " +
+		"read methods are compared with the final present set = per address the last operation on it (own order for an address of one goroutine, " +
+		"the last operation of one of its users otherwise); Set/Remove flags of single-user addresses follow the goroutine's own order. " +
+		"non-trivial: >=2 goroutines updated the member list of the same node; distinct by prefix + per-goroutine operation lists + scheduling points")
 	r.Floor(200)
 	r.Assume("the table is keyed by UDP address (Exists/Get/Remove take an address): a join at a present address replaces the member there",
 		"Set's added flag and Remove's removed flag are treated as presence reports (whenLeft acts on the latter)",
-		"single-goroutine histories; the callers serialise whenJoined/whenLeft with joinedLock")
+		"the table is a concurrent structure (two lock-protected sharded maps, used from memberlist event callbacks): join/leave of different "+
+			"addresses commute, so a concurrent history must end in the state of a sequential order of its operations; Memberlist.whenJoined/whenLeft "+
+			"additionally hold joinedLock today",
+		"no oracle clause depends on timing: scheduling points only make overlaps likely, the final-state comparison holds for every interleaving")
 
 	maxSteps := r.N(30, 60)
 
@@ -403,4 +1088,20 @@ func TestC37(t *testing.T) {
 			r.Sample(map[string]any{"ops": ss})
 		}
 	})
+
+	maxOps := r.N(4, 6)
+
+	// concurrent, one P: a goroutine runs until it blocks or reaches a scheduling point, so the drawn scheduling points
+	// decide which updates overlap
+	func() {
+		defer runtime.GOMAXPROCS(runtime.GOMAXPROCS(1))
+
+		r.Checks(500, 20000)
+		r.ShrinkTime(10 * time.Second)
+		rapid.Check(t, c37ConcurrentProperty(r, maxOps, 24, "one-p"))
+	}()
+
+	// concurrent, default parallelism
+	r.Checks(250, 10000)
+	rapid.Check(t, c37ConcurrentProperty(r, maxOps, 400, "multi-p"))
 }
